@@ -473,8 +473,28 @@ pub fn check_case(c: &Case, only_k: Option<u64>, acc: &mut Acc) -> CaseResult {
     if sp.registered > 0 && unify_polls == 0 {
         return fail("unification and layout building never poll".into(), format!("interval {p}"));
     }
-    // the number of unification rounds (and so of polls) depends on hash iteration order, also between two
-    // runs at the same interval: only a gross excess over the interval-1 run is judged
+    // unification and layout building: at interval 1 every iteration polls, so the interval-1 count is the
+    // amount of work W; at interval p the polls must track W / p. W depends on hash iteration order (by a
+    // factor of up to 1.5 between runs), so W is sampled three times and a factor of two is allowed on
+    // either side of the extremes
+    if p > 1 && sp.registered > 0 {
+        let mut w = vec![unify_polls_1];
+        for _ in 0..2 {
+            if let Ok(Ok(s)) = guard(|| staged(c, 1)) {
+                w.push(s.unify - s.infer);
+            }
+        }
+        let (wmin, wmax) = (*w.iter().min().unwrap(), *w.iter().max().unwrap());
+        let (lo, hi) = ((wmin / (2 * p)).saturating_sub(1), 2 * ceil_div(wmax, p) + 2);
+        if unify_polls < lo || unify_polls > hi {
+            let which = if unify_polls < lo { "less often" } else { "more often" };
+            return fail(
+                format!("unification / layout building polls {which} than once per interval iterations"),
+                format!("interval {p}: {unify_polls} polls; work at interval 1 in three runs: {w:?} (accepted {lo}..={hi})"),
+            );
+        }
+        acc.label("unify-polls-tracked");
+    }
     if unify_polls > 2 * unify_polls_1 + 16 {
         return fail(
             "unification / layout polls do not track the work done".into(),
